@@ -54,6 +54,8 @@ type sched interface {
 	// tooFarBehind: S(tr) - n1 > 1 + n1·rmax·1ns
 	tooFarBehind(n1 uint64, tr int64) bool
 	hasLower() bool
+	// ahead: n - S(t) > 0 (beyond the float slack): the count is strictly ahead of the schedule
+	ahead(n uint64, t int64) bool
 	// S as text for reports
 	show(t int64) string
 }
@@ -74,6 +76,9 @@ func (c constSched) tooFarBehind(n1 uint64, tr int64) bool {
 	return mul128(c.freq, uint64(tr)).cmp(mul128(n1, c.per).addU(c.per).add(mul128(n1, c.freq))) > 0
 }
 func (c constSched) hasLower() bool { return true }
+func (c constSched) ahead(n uint64, t int64) bool {
+	return mul128(n, c.per).cmp(mul128(c.freq, uint64(t))) > 0 // n·per > freq·t
+}
 func (c constSched) show(t int64) string {
 	r := new(big.Rat).SetFrac(new(big.Int).Mul(new(big.Int).SetUint64(c.freq), big.NewInt(t)), new(big.Int).SetUint64(c.per))
 	return r.FloatString(6)
@@ -109,7 +114,11 @@ func (s sineSched) tooFarBehind(n1 uint64, tr int64) bool {
 	h := s.H(tr)
 	return h-float64(n1) > 1+float64(n1)*(s.m+math.Abs(s.a))+slack(h)
 }
-func (s sineSched) hasLower() bool      { return true }
+func (s sineSched) hasLower() bool { return true }
+func (s sineSched) ahead(n uint64, t int64) bool {
+	h := s.H(t)
+	return float64(n)-h > slack(h)
+}
 func (s sineSched) show(t int64) string { return fmt.Sprintf("%.6f", s.H(t)) }
 
 // ---- linear: H(t) = a·x²/2 + b·x, x = t/1e9 s, b = freq/per·1e9; exact rationals near the boundary ----
@@ -147,15 +156,19 @@ func (l linSched) Hr(t int64) *big.Rat {
 // gt decides  lhs(n) − H(t) > bound  with 1e-6 slack, exactly when the float evaluation is close.
 func (l linSched) gt(n float64, nExact uint64, t int64, bound float64, sign float64) bool {
 	h, mag := l.Hf(t)
+	sl := 1e-6 + 1e-9*(mag+n) // float slack, as for the sine schedule: rounding noise must never raise an alarm
 	v := sign*(n-h) - bound
-	if math.Abs(v-1e-6) > 1e-3+1e-12*(mag+n) {
-		return v > 1e-6
+	if math.IsNaN(v) || math.IsInf(v, 0) || math.IsInf(sl, 0) || math.IsNaN(sl) {
+		return v > sl // beyond float64 range: decided in floats (NaN: not a violation)
+	}
+	if math.Abs(v-sl) > 1e-3+1e-12*(mag+n) {
+		return v > sl
 	}
 	d := new(big.Rat).Sub(new(big.Rat).SetInt(new(big.Int).SetUint64(nExact)), l.Hr(t))
 	if sign < 0 {
 		d.Neg(d)
 	}
-	bb := new(big.Rat).SetFloat64(bound + 1e-6)
+	bb := new(big.Rat).SetFloat64(bound + sl)
 	return d.Cmp(bb) > 0
 }
 func (l linSched) tooFarAhead(n uint64, t int64) bool { return l.gt(float64(n), n, t, 1, 1) }
@@ -165,6 +178,7 @@ func (l linSched) onSchedule(n uint64, t int64) bool {
 }
 func (l linSched) tooFarBehind(uint64, int64) bool { return false }
 func (l linSched) hasLower() bool                  { return false }
+func (l linSched) ahead(n uint64, t int64) bool    { return l.gt(float64(n), n, t, 0, 1) }
 func (l linSched) show(t int64) string             { h, _ := l.Hf(t); return fmt.Sprintf("%.6f", h) }
 
 func scheduleOf(x *in) sched {
@@ -307,9 +321,10 @@ func runLoop(x *in, each func(k int, t int64, n uint64, line string)) (loopOut, 
 			}
 		}
 		// "once the declared rate is <= 0 no further hit is due": more than floodK releases at one
-		// virtual instant while the rate is not positive is a flood
+		// virtual instant while the rate is not positive AND the count is already ahead of the schedule
+		// is a flood (catching up from behind without waiting is what the statement asks for)
 		if sch != nil && !pk && !stop && x.Pacer == "linear" {
-			if r, _, ok := rateOf(x, t); ok && r <= 0 && w <= 0 {
+			if r, _, ok := rateOf(x, t); ok && r <= 0 && w <= 0 && sch.ahead(n, t) {
 				sameInstant++
 				if sameInstant > floodK {
 					kind := "linear_flood_after_rate_nonpositive"
